@@ -1,3 +1,20 @@
+(** C07, clause "quote_closed": the literals and identifiers written by the quoting functions of
+    QuoteModel.v are closed tokens ([quoted_token]) for the scanners that read them back.
+
+    Method: for an ASCII quote byte the rune-wise walker [qloop] equals a byte-wise walker [bw]
+    ([qloop_bw]: a multi-byte rune is a group of bytes >= 128, [decode_rune_ascii]); everything
+    else is byte-level reasoning.
+
+    Proved (all inputs):
+      sq_wrap_closed, pg_quote_closed, single_quote_closed   '..' wrap, no backslash escapes
+      sq_wrap_closed_noback                                  '..' wrap, backslash escapes, no backslash in s
+      go_quote_closed, mysql_quote_closed                    strconv.Quote, backslash escapes, every np
+      ident_closed_notin   ~ In q s            -> closed
+      ident_closed_even    even_runs q s       -> closed
+      ident_closed_iff     closed <-> even_runs q s, when s has no quote byte other than q
+    Witnesses (closed terms): ident_not_closed, ident_closed_doubled (so "closed <-> ~ In q s" is
+    false), ident_closed_mixed (so the side condition of ident_closed_iff is needed),
+    sq_wrap_esc_not_closed. *)
 From Coq Require Import List NArith ZArith Bool Arith Lia.
 From Atlas Require Import Base.Bytes Lex.LexModel Lex.LexProofs Lex.ClosedModel Lex.QuoteModel.
 Import ListNotations.
@@ -249,3 +266,199 @@ Proof.
   intros H. unfold single_quote. rewrite H. destruct (is_quoted s [34%N]); [discriminate|].
   intros E. inversion E. apply sq_wrap_closed.
 Qed.
+
+(** * 2. strconv.Quote *)
+(** no bare double quote, every backslash is followed by a byte *)
+Fixpoint clean (l : bytes) : bool :=
+  match l with
+  | [] => true
+  | b :: t =>
+    if N.eqb b 92 then match t with [] => false | _ :: t' => clean t' end
+    else negb (N.eqb b 34) && clean t
+  end.
+
+Lemma clean_app : forall m a b, (length a <= m)%nat -> clean a = true -> clean (a ++ b) = clean b.
+Proof.
+  induction m as [|m IH]; intros a b Hm Ha.
+  - destruct a; [reflexivity|simpl in Hm; lia].
+  - destruct a as [|x a]; [reflexivity|]. simpl in Hm. simpl in Ha. simpl app. simpl clean.
+    destruct (N.eqb x 92).
+    + destruct a as [|y a]; [discriminate|]. simpl app. simpl in Hm. apply IH; [lia|exact Ha].
+    + apply andb_true_iff in Ha as [Hx Ha]. rewrite Hx. simpl. apply IH; [lia|exact Ha].
+Qed.
+
+Lemma clean_raw a : ~ In 34%N a -> ~ In 92%N a -> clean a = true.
+Proof.
+  induction a as [|x a IH]; intros H34 H92; [reflexivity|]. simpl.
+  replace (N.eqb x 92) with false by (symmetry; apply N.eqb_neq; intros ->; apply H92; left; reflexivity).
+  replace (N.eqb x 34) with false by (symmetry; apply N.eqb_neq; intros ->; apply H34; left; reflexivity).
+  simpl. apply IH; intros I; [apply H34|apply H92]; right; exact I.
+Qed.
+
+Lemma hexdigit_ok n : hexdigit n <> 34%N /\ hexdigit n <> 92%N.
+Proof. unfold hexdigit. destruct (n <? 10)%N eqn:E; lia. Qed.
+
+Lemma clean_hex2 b : clean (hex2 b) = true.
+Proof.
+  unfold hex2. apply clean_raw; simpl; intros [H|[H|[]]];
+    first [apply (proj1 (hexdigit_ok _)) in H | apply (proj2 (hexdigit_ok _)) in H]; exact H.
+Qed.
+Lemma clean_hex4 b : clean (hex4 b) = true.
+Proof. unfold hex4. rewrite (clean_app _ _ _ (le_n _) (clean_hex2 _)). apply clean_hex2. Qed.
+Lemma clean_hex8 b : clean (hex8 b) = true.
+Proof. unfold hex8. rewrite (clean_app _ _ _ (le_n _) (clean_hex4 _)). apply clean_hex4. Qed.
+
+Lemma go_quote_loop_clean np : forall f s, clean (go_quote_loop np f s) = true.
+Proof.
+  induction f as [|f IH]; intros s; [reflexivity|].
+  simpl go_quote_loop. destruct s as [|c t]; [reflexivity|].
+  destruct (decode_rune (c :: t)) as [r wz] eqn:E.
+  assert (c :: t <> []) as Hne by discriminate.
+  destruct (decode_rune_ascii _ _ _ E Hne) as (_ & _ & Hn).
+  match goal with |- clean (?out ++ _) = true => assert (clean out = true) as Hout end.
+  2:{ rewrite (clean_app _ _ _ (le_n _) Hout). apply IH. }
+  repeat match goal with |- clean (if ?c then _ else _) = true => destruct c eqn:? end;
+    try reflexivity; bnorm.
+  - change (clean (hex2 c) = true). apply clean_hex2.
+  - apply clean_raw; apply Hn; lia.
+  - change (clean (hex2 r) = true). apply clean_hex2.
+  - change (clean (hex4 r) = true). apply clean_hex4.
+  - change (clean (hex8 r) = true). apply clean_hex8.
+Qed.
+
+Lemma bw_clean : forall m body k rest, (length body <= m)%nat -> clean body = true ->
+  bw 34 true false (length body + S k) (body ++ 34%N :: rest) = Some (k, rest).
+Proof.
+  induction m as [|m IH]; intros body k rest Hm Hc.
+  - destruct body; [reflexivity|simpl in Hm; lia].
+  - destruct body as [|x body]; [reflexivity|]. simpl in Hm. simpl in Hc.
+    simpl app. simpl length. simpl plus. simpl bw. destruct (N.eqb x 92).
+    + destruct body as [|y body]; [discriminate|]. simpl. simpl in Hm. apply IH; [lia|exact Hc].
+    + apply andb_true_iff in Hc as [Hx Hc]. apply negb_true_iff in Hx. simpl andb. cbv iota.
+      rewrite Hx. apply IH; [lia|exact Hc].
+Qed.
+
+Theorem go_quote_closed np s : quoted_token true (go_quote np s) = true.
+Proof.
+  unfold go_quote. rewrite quoted_token_wrap. change (is_quote 34) with true. rewrite andb_true_l.
+  pose proof (bw_clean _ (go_quote_loop np (length s) s) 0 [59%N; 10%N] (le_n _) (go_quote_loop_clean np _ s)) as H.
+  rewrite Nat.add_1_r in H. rewrite H. reflexivity.
+Qed.
+
+Theorem mysql_quote_closed np s :
+  is_quoted s [34%N; 39%N] = false -> quoted_token true (mysql_quote np s) = true.
+Proof. intros H. unfold mysql_quote. rewrite H. apply go_quote_closed. Qed.
+
+(** * 3. Builder.Ident *)
+Lemma ident_wrap q s : s <> [] -> ident q q s = [q] ++ s ++ [q].
+Proof. destruct s; [congruence|reflexivity]. Qed.
+
+(** every maximal run of [q] bytes has even length ([odd] = parity of the run being read) *)
+Fixpoint er (q : N) (odd : bool) (s : bytes) : bool :=
+  match s with
+  | [] => negb odd
+  | b :: t => if N.eqb b q then er q (negb odd) t else negb odd && er q false t
+  end.
+Definition even_runs (q : N) (s : bytes) : bool := er q false s.
+
+(** the two states of the walk over [s ++ [q]]: inside a string / between two strings *)
+Definition st_in (f : nat) (q : N) (s rest : bytes) : bool :=
+  seg_result f false (bw q false false (S (length s)) (s ++ q :: rest)).
+Definition st_out (f : nat) (q : N) (s rest : bytes) : bool :=
+  qsegs f false (S (length s)) (s ++ q :: rest).
+
+Lemma st_in_nil f q rest : st_in f q [] rest = true.
+Proof. unfold st_in. simpl. rewrite andb_false_r, N.eqb_refl. reflexivity. Qed.
+Lemma st_in_q f q t rest : st_in f q (q :: t) rest = st_out f q t rest.
+Proof. unfold st_in, st_out. simpl bw. rewrite andb_false_r, N.eqb_refl. reflexivity. Qed.
+Lemma st_in_other f q b t rest : N.eqb b q = false -> st_in f q (b :: t) rest = st_in f q t rest.
+Proof. intros E. unfold st_in. simpl. rewrite andb_false_r, E. reflexivity. Qed.
+Lemma st_out_nil f q rest : is_quote q = true -> st_out (S f) q [] rest = false.
+Proof. intros Hq. unfold st_out. simpl app. simpl length. rewrite qsegs_S. rewrite Hq. reflexivity. Qed.
+Lemma st_out_q f q t rest : is_quote q = true -> st_out (S f) q (q :: t) rest = st_in f q t rest.
+Proof. intros Hq. unfold st_out, st_in. simpl app. simpl length. rewrite qsegs_S. rewrite Hq. reflexivity. Qed.
+Lemma st_out_other f q b t rest : is_quote b = false -> st_out (S f) q (b :: t) rest = false.
+Proof. intros Hb. unfold st_out. simpl app. simpl length. rewrite qsegs_S. rewrite Hb. reflexivity. Qed.
+
+Lemma er_walk q rest : is_quote q = true -> forall s f, (length s < f)%nat ->
+  (er q false s = true -> st_in f q s rest = true) /\ (er q true s = true -> st_out f q s rest = true).
+Proof.
+  intros Hq. induction s as [|b t IH]; intros f Hf.
+  - split; [intros _; apply st_in_nil|discriminate].
+  - simpl in Hf. simpl er. destruct (N.eqb b q) eqn:Eb.
+    + apply N.eqb_eq in Eb. subst b. split; intros H.
+      * rewrite st_in_q. apply IH; [lia|exact H].
+      * destruct f as [|f]; [lia|]. rewrite st_out_q by exact Hq. apply IH; [lia|exact H].
+    + split; intros H; [|discriminate].
+      rewrite st_in_other by exact Eb. apply IH; [lia|exact H].
+Qed.
+
+Lemma er_walk_exact q rest : is_quote q = true -> forall s f, (length s < f)%nat ->
+  (forall b, In b s -> is_quote b = true -> b = q) ->
+  st_in f q s rest = er q false s /\ st_out f q s rest = er q true s.
+Proof.
+  intros Hq. induction s as [|b t IH]; intros f Hf Honly.
+  - destruct f as [|f]; [lia|]. split; [apply st_in_nil|apply st_out_nil; exact Hq].
+  - simpl in Hf. destruct f as [|f]; [lia|].
+    assert (forall c, In c t -> is_quote c = true -> c = q) as Honly' by (intros c Hc; apply Honly; right; exact Hc).
+    simpl er. destruct (N.eqb b q) eqn:Eb.
+    + apply N.eqb_eq in Eb. subst b. split.
+      * rewrite st_in_q. apply IH; [lia|exact Honly'].
+      * rewrite st_out_q by exact Hq. apply IH; [lia|exact Honly'].
+    + split.
+      * rewrite st_in_other by exact Eb. apply IH; [lia|exact Honly'].
+      * apply st_out_other. destruct (is_quote b) eqn:Ebq; [|reflexivity].
+        apply N.eqb_neq in Eb. exfalso. apply Eb. apply Honly; [left; reflexivity|exact Ebq].
+Qed.
+
+Lemma quoted_token_ident q s : is_quote q = true -> s <> [] ->
+  quoted_token false (ident q q s) = st_in (S (S (length s))) q s [59%N; 10%N].
+Proof.
+  intros Hq Hs. rewrite ident_wrap by exact Hs. rewrite quoted_token_wrap. rewrite Hq. reflexivity.
+Qed.
+
+Lemma er_notin q s : ~ In q s -> er q false s = true.
+Proof.
+  induction s as [|b t IH]; intros H; [reflexivity|]. simpl.
+  replace (N.eqb b q) with false by (symmetry; apply N.eqb_neq; intros ->; apply H; left; reflexivity).
+  apply IH. intros I. apply H. right. exact I.
+Qed.
+
+(** 3c, one direction, no side condition *)
+Theorem ident_closed_even q s : is_quote q = true -> s <> [] ->
+  even_runs q s = true -> quoted_token false (ident q q s) = true.
+Proof.
+  intros Hq Hs He. rewrite quoted_token_ident by assumption.
+  apply (er_walk q _ Hq s); [lia|exact He].
+Qed.
+
+(** 3a *)
+Theorem ident_closed_notin q s : is_quote q = true -> s <> [] ->
+  ~ In q s -> quoted_token false (ident q q s) = true.
+Proof. intros Hq Hs H. apply ident_closed_even; [exact Hq|exact Hs|apply er_notin; exact H]. Qed.
+
+(** 3c, exact, when the name contains no quote character other than [q] *)
+Theorem ident_closed_iff q s : is_quote q = true -> s <> [] ->
+  (forall b, In b s -> is_quote b = true -> b = q) ->
+  (quoted_token false (ident q q s) = true <-> even_runs q s = true).
+Proof.
+  intros Hq Hs Honly. rewrite quoted_token_ident by assumption.
+  destruct (er_walk_exact q [59%N; 10%N] Hq s (S (S (length s))) ltac:(lia) Honly) as [-> _].
+  reflexivity.
+Qed.
+
+(** 3b: witnesses *)
+(* a";b : the token "a";b" is not closed *)
+Example ident_not_closed : quoted_token false (ident 34 34 [97; 34; 59; 98]%N) = false.
+Proof. vm_compute. reflexivity. Qed.
+(* a""b : contains the quote and is closed, so [~ In q s] is sufficient but not necessary *)
+Example ident_closed_doubled : quoted_token false (ident 34 34 [97; 34; 34; 98]%N) = true.
+Proof. vm_compute. reflexivity. Qed.
+(* a"'"'"b : closed ("a" '"' "b") with odd runs: the side condition of [ident_closed_iff] is needed *)
+Example ident_closed_mixed :
+  quoted_token false (ident 34 34 [97; 34; 39; 34; 39; 34; 98]%N) = true /\ even_runs 34 [97; 34; 39; 34; 39; 34; 98]%N = false.
+Proof. vm_compute. split; reflexivity. Qed.
+(* 4: with backslash escapes the single-quote wrap of  ab\  is not closed *)
+Example sq_wrap_esc_not_closed :
+  quoted_token true ([39%N] ++ double_sq [97; 98; 92]%N ++ [39%N]) = false.
+Proof. vm_compute. reflexivity. Qed.
